@@ -379,7 +379,7 @@ fn add_families(trace: &mut Trace, rng: &mut Rng, stats: &mut GenStats, big: boo
         *stats.fired.entry(name).or_insert(0) += 1;
         let at = rng.usize_below(trace.events.len() + 1);
         let t = trace.events.get(at).map(|e| match e {
-            Ev::Deliver { t, .. } | Ev::Restart { t } | Ev::Reconfigure { t, .. } => *t,
+            Ev::Deliver { t, .. } | Ev::Restart { t } | Ev::Reconfigure { t, .. } | Ev::ResetCaches { t, .. } => *t,
         }).unwrap_or(trace.sim_ns);
         for (k, b) in bufs.into_iter().enumerate() {
             let len = b.len();
@@ -415,6 +415,134 @@ fn add_scaling(trace: &mut Trace, rng: &mut Rng, stats: &mut GenStats) {
     }
 }
 
+fn time_at(trace: &Trace, at: usize) -> u64 {
+    trace.events.get(at).map(|e| match e {
+        Ev::Deliver { t, .. } | Ev::Restart { t } | Ev::Reconfigure { t, .. } | Ev::ResetCaches { t, .. } => *t,
+    }).unwrap_or(trace.sim_ns)
+}
+
+/// The caller forgets the templates of one or both protocols now and then (public fields).
+fn add_cache_resets(trace: &mut Trace, rng: &mut Rng, stats: &mut GenStats) {
+    if trace.parsers.is_empty() || trace.events.is_empty() || !rng.chance(1, 4) {
+        return;
+    }
+    let n = rng.urange(1, 2);
+    for _ in 0..n {
+        let p = rng.usize_below(trace.parsers.len());
+        // never inside the recovery phase: its deliveries assert that everything decodes
+        // once faults have stopped and the templates were refreshed
+        let limit = trace
+            .events
+            .iter()
+            .position(|e| matches!(e, Ev::Deliver { faults, .. } if faults.iter().any(|f| f == "heal")))
+            .unwrap_or(trace.events.len());
+        let at = rng.usize_below(limit + 1);
+        let t = time_at(trace, at);
+        let (v9, ipfix) = *rng.pick(&[(true, false), (false, true), (true, true)]);
+        trace.events.insert(at, Ev::ResetCaches { t, p, v9, ipfix });
+        *stats.fired.entry("caches_reset_by_caller").or_insert(0) += 1;
+    }
+}
+
+/// A buffer packed with the smallest legal packets (keep-alives: an IPFIX message without
+/// sets is 16 bytes, a V9 header with count 0 is 20, V5/V7 with count 0 are 24).
+fn add_tiny_bursts(trace: &mut Trace, rng: &mut Rng, stats: &mut GenStats) {
+    if trace.parsers.is_empty() || !rng.chance(1, 4) {
+        return;
+    }
+    let n = rng.urange(1, 2);
+    for _ in 0..n {
+        let p = rng.usize_below(trace.parsers.len());
+        let at = rng.usize_below(trace.events.len() + 1);
+        let t = time_at(trace, at);
+        let k = rng.urange(2, 40);
+        let only_ipfix = rng.chance(1, 2);
+        let mut buf = Vec::new();
+        let mut parts = Vec::new();
+        for _ in 0..k {
+            let which = if only_ipfix { 0 } else { rng.below(4) };
+            let pk = match which {
+                0 => crate::wire::ipfix_packet(rng.next_u64() as u32, rng.next_u64() as u32, rng.next_u64() as u32, &[]),
+                1 => crate::wire::v9_packet(0, rng.next_u64() as u32, rng.next_u64() as u32, rng.next_u64() as u32, rng.next_u64() as u32, &[]),
+                2 => {
+                    let mut h = [0u8; 20];
+                    h.copy_from_slice(&rng.bytes(20));
+                    crate::wire::v5(0, &h, &[])
+                }
+                _ => {
+                    let mut h = [0u8; 20];
+                    h.copy_from_slice(&rng.bytes(20));
+                    crate::wire::v7(0, &h, &[])
+                }
+            };
+            parts.push(pk.len());
+            buf.extend(pk);
+        }
+        trace.events.insert(at.min(trace.events.len()), Ev::Deliver { t, p, buf, parts, cut: None, faults: vec!["tiny_packet_burst".into()] });
+        *stats.fired.entry("tiny_packet_burst").or_insert(0) += 1;
+    }
+}
+
+/// A buffer beyond the datagram limit (a capture file, a stream reassembled by the caller):
+/// one V5/V7 packet whose record block alone exceeds 64 KiB, or a long chain; sometimes behind
+/// a packet that cannot be decoded, so that the final error carries more than 64 KiB.
+fn add_jumbo(trace: &mut Trace, rng: &mut Rng, stats: &mut GenStats, truncations: bool) {
+    if trace.parsers.is_empty() || !rng.chance(1, 8) {
+        return;
+    }
+    let p = rng.usize_below(trace.parsers.len());
+    let at = rng.usize_below(trace.events.len() + 1);
+    let t = time_at(trace, at);
+    let mut buf = Vec::new();
+    let mut parts = Vec::new();
+    let undecodable_front = rng.chance(1, 3);
+    if undecodable_front {
+        // V9 data for a template nobody sent: the call ends here with one error
+        let pk = crate::wire::v9_packet(1, 1, 2, 3, 4, &[crate::wire::set(64999, &[1, 2, 3, 4], 0)]);
+        parts.push(pk.len());
+        buf.extend(pk);
+    }
+    let one = |rng: &mut Rng, count: usize| -> Vec<u8> {
+        let mut h = [0u8; 20];
+        h.copy_from_slice(&rng.bytes(20));
+        if rng.chance(1, 2) {
+            crate::wire::v5(count as u16, &h, &rng.bytes(count * 48))
+        } else {
+            crate::wire::v7(count as u16, &h, &rng.bytes(count * 52))
+        }
+    };
+    if rng.chance(1, 2) {
+        let c = rng.urange(1261, 1500);
+        let pk = one(rng, c);
+        parts.push(pk.len());
+        buf.extend(pk);
+    } else {
+        let target = rng.urange(66_000, 140_000);
+        while buf.len() < target {
+            let c = rng.urange(1, 30);
+            let pk = one(rng, c);
+            parts.push(pk.len());
+            buf.extend(pk);
+        }
+    }
+    let mut evs = Vec::new();
+    if truncations && !undecodable_front {
+        let last_len = *parts.last().unwrap();
+        let last_start = buf.len() - last_len;
+        for _ in 0..3 {
+            // cuts around the 64 KiB mark of the last packet and near its end
+            let k = if last_len > 65_700 && rng.chance(2, 3) { last_start + rng.urange(65_400, last_len - 1) } else { last_start + rng.urange(1, last_len - 1) };
+            evs.push(Ev::Deliver { t, p, buf: buf.clone(), parts: parts.clone(), cut: Some(k), faults: vec!["jumbo_buffer".into(), "truncate".into()] });
+            *stats.fired.entry("truncate").or_insert(0) += 1;
+        }
+    }
+    evs.push(Ev::Deliver { t, p, buf, parts, cut: None, faults: vec!["jumbo_buffer".into()] });
+    *stats.fired.entry("jumbo_buffer_over_64KiB").or_insert(0) += 1;
+    for (k, e) in evs.into_iter().enumerate() {
+        trace.events.insert((at + k).min(trace.events.len()), e);
+    }
+}
+
 pub fn gen_trace(prop: &str, run_seed: u64) -> (Trace, GenStats) {
     let mut rng = Rng::new(run_seed);
     let mut cfg = world_cfg(prop, &mut rng);
@@ -425,14 +553,32 @@ pub fn gen_trace(prop: &str, run_seed: u64) -> (Trace, GenStats) {
     let wrng = rng.fork();
     let (mut trace, mut stats) = World::new(&cfg, wrng).run(prop, run_seed);
     match prop {
-        "C14" => add_truncations(&mut trace, &mut rng, &mut stats),
+        "C14" => {
+            add_truncations(&mut trace, &mut rng, &mut stats);
+            add_tiny_bursts(&mut trace, &mut rng, &mut stats);
+            add_jumbo(&mut trace, &mut rng, &mut stats, true);
+        }
+        "C02" | "C11" => {
+            add_tiny_bursts(&mut trace, &mut rng, &mut stats);
+            add_jumbo(&mut trace, &mut rng, &mut stats, false);
+        }
+        "C06" | "C07" => {
+            add_cache_resets(&mut trace, &mut rng, &mut stats);
+            if prop == "C06" {
+                add_tiny_bursts(&mut trace, &mut rng, &mut stats);
+            }
+        }
         "C01" => {
             if rng.chance(1, 2) {
                 let big = rng.chance(1, 4);
                 add_families(&mut trace, &mut rng, &mut stats, big);
             }
+            add_cache_resets(&mut trace, &mut rng, &mut stats);
+            add_tiny_bursts(&mut trace, &mut rng, &mut stats);
+            add_jumbo(&mut trace, &mut rng, &mut stats, true);
         }
         "C12" => {
+            add_tiny_bursts(&mut trace, &mut rng, &mut stats);
             // the operator changes the filter of a live parser now and then
             if !trace.events.is_empty() && rng.chance(1, 2) {
                 let n = rng.urange(1, 3);
@@ -440,7 +586,7 @@ pub fn gen_trace(prop: &str, run_seed: u64) -> (Trace, GenStats) {
                     let p = rng.usize_below(trace.parsers.len());
                     let at = rng.usize_below(trace.events.len() + 1);
                     let t = trace.events.get(at).map(|e| match e {
-                        Ev::Deliver { t, .. } | Ev::Restart { t } | Ev::Reconfigure { t, .. } => *t,
+                        Ev::Deliver { t, .. } | Ev::Restart { t } | Ev::Reconfigure { t, .. } | Ev::ResetCaches { t, .. } => *t,
                     }).unwrap_or(trace.sim_ns);
                     let allowed = rand_allowed(&mut rng);
                     trace.events.insert(at, Ev::Reconfigure { t, p, allowed });
